@@ -526,6 +526,18 @@ theorem trans_C06_C09_C17_requirements_v1 (r : T_v1_AzureSharedResource_req) (hf
   by_cases h0 : ph = 0 <;> cases lm <;> by_cases h1 : f = 0 <;> by_cases h2 : m < 1 <;> by_cases h3 : sh < 1 <;>
     simp [v1_sr_requirements, u32, h0, h1, h2, h3, e2, e3]
 
+/-- the end of v2 `Start` (after the requirement checks): if provisioning the container fails the error goes to the
+caller and NOTHING changes - the phase stays uninitialised, no re-provisioning is requested (C17: a provisioning failure
+reported to the caller leaves the resource not started); otherwise the phase becomes started and, with a lease
+manager, one provisioning request is left for the loop -/
+theorem trans_C17_startTail_v2 (sh : Int) (lm : Bool) (ph pv : Nat) (e : String) (hp : pv ≤ 1) :
+    v2_sr_startTail { sharedCapacity := sh, leaseManager := lm, phase := ph, provision := pv } e =
+      (if lm = true ∧ e ≠ "" then ({ sharedCapacity := sh, leaseManager := lm, phase := ph, provision := pv }, e)
+       else ({ sharedCapacity := sh, leaseManager := lm, phase := 1, provision := if lm then 1 else (pv : Int) }, "")) := by
+  have : pv = 0 ∨ pv = 1 := by omega
+  cases lm <;> by_cases he : e = "" <;> rcases this with h | h <;>
+    simp [v2_sr_startTail, v2_sr_scheduleProvision, he, h]
+
 /-! ### Batcher: the admission checks at the head of `Enqueue`, and `applyDefaults`
 
 `v?_enqueueAdmit` is the translation of everything `Enqueue` does BEFORE its first `r.incTarget(...)`; the calls
